@@ -17,5 +17,5 @@ Extraction "../ocaml/model.ml"
   Shamir.share_to_bytes Shamir.share_from_bytes Shamir.recover
   Adss.sharing_of Adss.load_bytes Adss.store_bytes Adss.ashare_to_bytes Adss.ashare_from_bytes
   Star.message_to_bytes Star.message_from_bytes Star.parse_payload
-  Scenario.sharks_deal Scenario.decode_shares Scenario.adss_shares Scenario.adss_recover
+  Scenario.sharks_deal Scenario.decode_shares Scenario.adss_shares Scenario.adss_recover Scenario.adss_coeffs
   Scenario.star_scenario Scenario.star_recover_from Scenario.star_derive.
